@@ -295,7 +295,7 @@ def semantic_problems(name, args, before, tt_before, c, result):
 OBSERVERS = ('get_truth_table', 'evaluate_full_circuit', 'evaluate_circuit', 'top_sort')
 
 
-def observe(M, c, rnd, which=OBSERVERS):
+def observe(M, c, rnd, which=OBSERVERS, lenient=False):
     """The repository's own observers folded on the current (well-formed) state and compared with their definitions.  Called
     at random points of a history, i.e. before and after mutations: an answer remembered from an earlier state shows up here.
     Returns {observer: problem}."""
@@ -303,7 +303,11 @@ def observe(M, c, rnd, which=OBSERVERS):
     import itertools
     d = c._d
     if problems(c):
-        return {}
+        # a state a *returning* public call left although it is not well formed (never on a tree where C02 holds): the
+        # orderings are still observed when every operand names a gate -- that is how such a state shows to a user
+        if not lenient or any(o not in d['_gates'] for g in d['_gates'].values() for o in g.operands):
+            return {}
+        which = [w for w in which if w == 'top_sort']
     ins = list(d['_inputs'])
     out = {}
     before = cm.snapshot(c)
@@ -451,6 +455,10 @@ def fold_histories(ck: Checker, R: str, only=None, observers=(), n_hist=None):
                 pr = semantic_problems(name, args, before, tt_before, c, _)
             if pr:
                 rec['problems'].append(f'{pr[0]} after the history {" ; ".join(trail)} (start state {h % len(STARTS)})')
+                if 'top_sort' in observers and problems(c):
+                    for w, msg in observe(M, c, obs_rnd, ('top_sort',), lenient=True).items():
+                        obs[w]['n'] += 1
+                        obs[w]['problems'].append(f'{msg} after the history {" ; ".join(trail)}')
                 break
     for name, rec in sorted(per_method.items()):
         if only is not None and name not in only:
